@@ -81,7 +81,8 @@ def parse_model(out, D):
 def gen_cases(ck, sgs, allstrata):
     """yield (sg, kind, x0 exact special site, x actual input (Fractions), off)."""
     nmax = 6 if ck.tier == "quick" else 10 ** 6
-    offs = [(Fraction(0),) * 3, (Fraction(1, 4), Fraction(1, 4), Fraction(1, 4)), (Fraction(1, 10), Fraction(1, 5), Fraction(3, 10))]
+    offs = [(Fraction(0),) * 3, (Fraction(1, 4), Fraction(1, 4), Fraction(1, 4)), (Fraction(1, 10), Fraction(1, 5), Fraction(3, 10)),
+            (Fraction(0), Fraction(1, 4), Fraction(0)), (Fraction(1, 4), Fraction(1, 8), Fraction(0)), (Fraction(0), Fraction(0), Fraction(1, 2))]
     for sg in sgs:
         st = allstrata.get(sg.number)
         if not st:
@@ -129,7 +130,7 @@ def gen_cases(ck, sgs, allstrata):
             n2 = [ck.rng.choice([-2, -1, -1, 1]) for _ in range(3)]
             yield sg, "inside+shift", [x0[j] + n2[j] for j in range(3)], [xin[j] + n2[j] for j in range(3)], zero, st[i]
             if ck.tier == "thorough" or i in idx[:2]:
-                off = offs[1 + (sg.number + i) % 2]
+                off = offs[1 + (sg.number + i) % (len(offs) - 1)]   # also origin shifts along one or two axes only
                 xo = [x0[j] - off[j] for j in range(3)]
                 yield sg, "offset", xo, xo, off, st[i]
                 xio = [xin[j] - off[j] for j in range(3)]
